@@ -150,6 +150,11 @@ ORDER_PROGRAMS = [
     # diagnostics whose related information names a function that has several entry labels
     "main:\n    li t0, 1\n    jal fb\n    add a0, t0, a0\n    j fb2\nfb:\nfb2:\nfb3:\nfb4:\n    li t0, 2\n    ret\n",
     "main:\n    li t1, 1\n    jal zz\n    jal aa\n    add a0, t1, a0\n    li a7, 10\n    ecall\nzz:\naa:\nmm:\nbb:\nyy:\n    li t1, 2\n    ret\n",
+    # unreachable regions in which the facts flipped between two states for ever before the roots were pinned
+    # (found by PassLoop.tla at N = 4; these are realisations of its counterexample)
+    "main:\n    j end\nn1:\n    j n3\nn2:\n    j n1\nn3:\n    beq a0, a1, n2\nn4:\n    li t0, 5\n    beq a2, a3, n1\n    j n2\nend:\n    li a7, 10\n    ecall\n",
+    "main:\n    j end\nB1:\n    j B2\nB2:\n    beq a0, a1, B5\nB3:\n    li t0, 5\nB4:\n    j B2\nB5:\n    beq a0, a1, B4\nend:\n    li a7, 10\n    ecall\n",
+    "main:\n    li a7, 10\n    ecall\nB1:\n    beq a0, a1, B5\nB2:\n    li t0, 5\nB3:\n    j B1\nB4:\n    beq a0, a1, B1\nB5:\n    beq a0, a1, B3\n",
 ]
 ORDER_PROGRAMS = [p for p in ORDER_PROGRAMS if p]
 
